@@ -355,6 +355,45 @@ func runC03(w *mon.W) {
 			sl = 20000 + r.Intn(80001)
 		}
 		rec := gen.RandGBRecord(r, sl, mf, mt)
+		if r.Intn(12) == 0 {
+			// a construct named after the RNA gene it carries ("pT7_mRNA_GFP", "tRNA-Phe_pUC19"): a word that is a
+			// molecule type further down GenBank's list than the record's own type
+			later := map[string][]string{"DNA": {"mRNA", "tRNA", "rRNA"}, "mRNA": {"tRNA", "rRNA"}, "tRNA": {"rRNA"}}[rec.MolType]
+			if len(later) > 0 {
+				word := later[r.Intn(len(later))]
+				switch r.Intn(3) {
+				case 0:
+					rec.Name = word + "-" + rec.Name
+				case 1:
+					rec.Name = rec.Name + "_" + word
+				default:
+					rec.Name = "p" + rec.Name[:len(rec.Name)/2] + "_" + word + "_" + rec.Name[len(rec.Name)/2:]
+				}
+				w.Add("locus_names_holding_another_molecule_type_word", 1)
+			}
+		}
+		if r.Intn(5) == 0 && len(rec.Features) > 0 && len(rec.Features) < 40 {
+			// gene / mRNA / CDS of one gene share their exon list and differ only in the partial markers (or not at
+			// all): the same spans occur twice in one record
+			src := rec.Features[r.Intn(len(rec.Features))]
+			var clone func(l *oracle.Loc) *oracle.Loc
+			clone = func(l *oracle.Loc) *oracle.Loc {
+				c := *l
+				c.Subs = nil
+				for _, sub := range l.Subs {
+					c.Subs = append(c.Subs, clone(sub))
+				}
+				return &c
+			}
+			twin := gen.GBFeature{Key: []string{"CDS", "mRNA", "gene"}[r.Intn(3)], Loc: clone(src.Loc)}
+			for _, leaf := range twin.Loc.Leaves() {
+				if leaf.Kind == oracle.LocSpan && r.Intn(2) == 0 {
+					leaf.Partial5, leaf.Partial3 = r.Intn(2) == 0, r.Intn(2) == 0
+				}
+			}
+			rec.Features = append(rec.Features, twin)
+			w.Add("records_with_two_features_on_the_same_spans", 1)
+		}
 		mode := k % 3
 		if mode == 2 {
 			// determinism workload: many features with 4..8 qualifiers, 3..5 keyword blocks
